@@ -19,7 +19,7 @@ from vt.props import common as cm
 PID = "C10"
 RULE = (
     "Hypothesis-generated middleware stacks of 0-3 synthesised TaskiqMiddleware subclasses, each overriding any subset "
-    "of the six hooks, every hook sync or async, pre_send / pre_execute optionally REPLACING the message by a stamped "
+    "of the six hooks (each defined on the registered class itself or inherited from an intermediate middleware class), every hook sync or async, pre_send / pre_execute optionally REPLACING the message by a stamped "
     "copy (so that 'each sees its predecessor's message' is observable in data); 1-4 messages sent through the real "
     "AsyncKicker.kiq (sequentially or concurrently), kick() failing for a generated subset, then delivered to the real "
     "Receiver.listen() with generated arrival instants (concurrent executions), outcomes return / raise / BaseException / "
@@ -34,7 +34,7 @@ ASSUMPTIONS = ["hooks that raise are outside C10 (C03 covers them)", "virtual-ti
 
 
 def scenario() -> Any:
-    hook = st.fixed_dictionaries({"async": st.booleans(), "stamp": st.booleans()})
+    hook = st.fixed_dictionaries({"async": st.booleans(), "stamp": st.booleans(), "inherited": st.sampled_from([False, False, True])})
     mw = st.dictionaries(st.sampled_from(list(wh.HOOKS)), hook, max_size=6)
 
     def fin(d: Dict[str, Any]) -> Dict[str, Any]:
@@ -216,6 +216,7 @@ def run_case(sc: Dict[str, Any]) -> Outcome:
     out.classes = [f"mws={len(mws)}"] + [c for c, f in (("failing_kick", bool(sc["fail_kicks"])), ("failing_save", bool(sc["fail_saves"])),
                                                        ("async_hook", any(h.get("async") for m in mws for h in m.values())),
                                                        ("stamping_hook", any(h.get("stamp") for m in mws for h in m.values())),
+                                                       ("inherited_hook", any(h.get("inherited") for m in mws for h in m.values())),
                                                        ("concurrent_send", sc["concurrent_send"])) if f]
     out.trace = wh.brief_trace(trace, 70)
     return out
